@@ -569,6 +569,29 @@ func genC02(o *Out, rng *rand.Rand, tier string) {
 			}
 		}
 	}
+	// list-valued options with as many elements as an octet counts, and more (DHCPv6 lengths are 16 bits wide: no list ends
+	// at 127 or 255 elements)
+	for _, cnt := range []int{126, 127, 128, 129, 255, 256, 257, 1000} {
+		m := &dhcpv6.Message{MessageType: dhcpv6.MessageTypeSolicit}
+		copy(m.TransactionID[:], rxid(rng, 3))
+		var archs []iana.Arch
+		var codes []dhcpv6.OptionCode
+		var ips []net.IP
+		var classes [][]byte
+		for k := 0; k < cnt; k++ {
+			archs = append(archs, iana.Arch(k%40))
+			codes = append(codes, dhcpv6.OptionCode(1000+k))
+			ips = append(ips, net.ParseIP(fmt.Sprintf("2001:db8::%x", k+1)))
+			classes = append(classes, []byte{byte(k), byte(k >> 8)})
+		}
+		m.AddOption(dhcpv6.OptClientArchType(archs...))
+		m.AddOption(dhcpv6.OptRequestedOption(codes...))
+		m.AddOption(dhcpv6.OptDNS(ips...))
+		m.AddOption(&dhcpv6.OptUserClass{UserClasses: classes})
+		emit(m, "long-lists")
+		r, _ := dhcpv6.EncapsulateRelay(m, dhcpv6.MessageTypeRelayForward, net.ParseIP("2001:db8::1"), net.ParseIP("fe80::1"))
+		emit(r, "long-lists")
+	}
 	// values with a history: encoded / printed / decoded first, then edited in place through exported fields
 	for _, c := range v6Known {
 		for k := 0; k < 4; k++ {
@@ -996,6 +1019,23 @@ func subOptionWires(rng *rand.Rand) [][]byte {
 	}
 	out = append(out, msg(56, sub(3, name)), msg(56, sub(3, []byte{3, 'n', 't', 'p'})), msg(56, sub(3, nil)), msg(56, sub(9, []byte{1, 2, 3})),
 		msg(56, append(sub(1, addrs[0]), sub(1, addrs[0])...)), msg(56, append(sub(3, name), sub(3, name)...)), msg(56, nil), msg(56, []byte{0, 1, 0}))
+	// a 4RD option that holds other options than its two rules (codes that mean something at the top level, codes that mean nothing)
+	rule0 := append([]byte{24, 64, 8, 0, 10, 1, 2, 3}, net.ParseIP("2001:db8:aa::")...)
+	out = append(out, msg(97, sub(1, []byte{0, 3, 0, 1, 2, 0, 0, 0, 0, 9})), msg(97, append(sub(98, rule0), sub(200, []byte("opaque inside 4rd"))...)),
+		msg(97, append(sub(65000, []byte{1, 2, 3}), sub(99, []byte{0, 0, 5, 220})...)), msg(97, sub(97, sub(98, rule0))))
+	// identity associations as servers answer them: a status code and no address (Success or a failure), a status code next to
+	// an address, nothing at all - in a REPLY, which is what the boot configuration is read from
+	reply := func(payload []byte) []byte {
+		return append([]byte{7, 5, 6, 7, 0, 3, byte(len(payload) >> 8), byte(len(payload))}, payload...)
+	}
+	iahdr := []byte{1, 2, 3, 4, 0, 0, 14, 16, 0, 0, 28, 32}
+	addr := append(append(net.ParseIP("2001:db8::77"), 0, 0, 14, 16), 0, 0, 28, 32)
+	for _, st := range []int{0, 1, 2, 6} {
+		stat := sub(13, append([]byte{0, byte(st)}, "status"...))
+		out = append(out, reply(append(append([]byte{}, iahdr...), stat...)), reply(append(append(append([]byte{}, iahdr...), stat...), sub(5, addr)...)),
+			reply(append(append(append([]byte{}, iahdr...), sub(5, addr)...), sub(13, []byte{0, byte(st)})...)))
+	}
+	out = append(out, reply(iahdr))
 	for p4 := 0; p4 < 256; p4++ {
 		for _, p6 := range []int{0, 64, 128, 129, 255} {
 			if p4 > 40 && p4 < 120 && p6 != 64 || p4 > 136 && p4%16 != 0 && p6 != 64 {
